@@ -1,10 +1,12 @@
 import PyImpSpec.Registry
+import PyImpSpec.Cdc.SymProof
 
 /-! # C15 — the element registry and class defaults can always be restored
 
 Model: `Registry.*` (hand model of `pyimpspec/circuit/registry.py`), tied to `/repo` by the correspondence
 stream `reg` (random histories of register / remove / reset / set_default_values compared step by step
-with the real registry, always ending in `reset()`). -/
+with the real registry, always ending in `reset()`); `Cdc.tokenize` (hand model of `circuit/tokenizer.py`),
+tied by the token-level correspondence stream `tok` (same class names, same identifier/label texts). -/
 
 namespace C15
 open Registry
@@ -256,6 +258,119 @@ theorem reset_restores_elements (st : State) (ops : List Op) (h : WF st) :
   have := (builtins_preserved st ops h).2.1
   simp only [reset, ↓reduceIte, resetDefaultParams]
   exact this
+
+/-! ## registered symbols and the tokenizer: the longest symbol wins -/
+
+/-- every key of the element table and of the built-in table has the shape `_validate_element_symbol` enforces -/
+def SymsOk (st : State) : Prop :=
+  (∀ p ∈ st.elements, validSymbol p.1 = true) ∧ (∀ p ∈ st.defaults, validSymbol p.1 = true)
+
+theorem removeFold_elements_subset (cs : List ClassId) (st : State) :
+    (∀ p ∈ (cs.foldl removeOne st).elements, p ∈ st.elements) ∧ (cs.foldl removeOne st).defaults = st.defaults := by
+  induction cs generalizing st with
+  | nil => exact ⟨fun _ h => h, rfl⟩
+  | cons c rest ih =>
+    obtain ⟨h1, h2⟩ := ih (removeOne st c)
+    have e1 : ∀ p ∈ (removeOne st c).elements, p ∈ st.elements := by
+      intro p hp
+      unfold removeOne at hp
+      split at hp
+      · exact hp
+      · exact List.mem_of_mem_erase hp
+    have e2 : (removeOne st c).defaults = st.defaults := by
+      unfold removeOne; split <;> rfl
+    exact ⟨fun p hp => e1 p (h1 p hp), by rw [List.foldl_cons, h2, e2]⟩
+
+theorem step_symsOk (st : State) (op : Op) (h : SymsOk st) : SymsOk (step st op) := by
+  cases op with
+  | register d p v =>
+    refine ⟨?_, by show ∀ q ∈ (register st d p v).1.defaults, _; rw [register_defaults]; exact h.2⟩
+    show ∀ q ∈ (register st d p v).1.elements, _
+    unfold register
+    split; · exact h.1
+    rename_i hsym
+    have hs : validSymbol d.symbol = true := by simpa using hsym
+    split; · exact h.1
+    split; · exact h.1
+    split; · exact h.1
+    unfold registerEntry
+    split
+    · split
+      · exact h.1
+      · rw [(addPrivate_shape _ d p).1]; exact h.1
+    · rw [(addPrivate_shape _ d p).1]
+      intro q hq
+      rcases List.mem_append.mp hq with hq | hq
+      · exact h.1 q hq
+      · have : q = (d.symbol, d.cls) := by simpa using hq
+        rw [this]; exact hs
+  | remove cs =>
+    show SymsOk (remove st cs).1
+    unfold remove
+    split; · exact h
+    split; · exact h
+    obtain ⟨h1, h2⟩ := removeFold_elements_subset cs st
+    exact ⟨fun q hq => h.1 q (h1 q hq), by show ∀ q ∈ (cs.foldl removeOne st).defaults, _; rw [h2]; exact h.2⟩
+  | reset e dp =>
+    show SymsOk (reset st e dp)
+    unfold reset
+    cases e <;> cases dp <;> simp only [resetDefaultParams, ↓reduceIte, Bool.false_eq_true] <;> first | exact h | exact ⟨h.2, h.2⟩
+  | setDefault c k v =>
+    show SymsOk (setDefault st c k v).1
+    unfold setDefault
+    split; · exact h
+    split
+    · exact h
+    · exact h
+
+/-- after any history every registered symbol is an upper-case letter followed by lower-case letters, digits
+and underscores (what makes the upper-case letter a delimiter) -/
+theorem symbols_always_valid (st : State) (ops : List Op) (h : SymsOk st) : SymsOk (ops.foldl step st) := by
+  induction ops generalizing st with
+  | nil => exact h
+  | cons op rest ih => exact ih _ (step_symsOk st op h)
+
+theorem validSymbol_shape (k : String) (h : validSymbol k = true) : Cdc.ValidSym k.toList := by
+  unfold validSymbol at h
+  cases hk : k.toList with
+  | nil => rw [hk] at h; cases h
+  | cons c cs =>
+    rw [hk] at h
+    simp only [Bool.and_eq_true, List.all_eq_true] at h
+    refine ⟨c, cs, rfl, h.1, ?_⟩
+    intro d hd
+    have := h.2 d hd
+    simpa [Cdc.symTail, Cdc.isLower, Cdc.isDigit] using this
+
+/-- **The longest symbol wins.** In any state reachable from the built-in registry, ANY run of registered symbols
+written without separators (`LLaLs`, `RQLaXab…`) is tokenized into exactly one identifier token per symbol, in
+order, whose text is that symbol - whatever other symbols (prefixes or extensions of them) are registered. -/
+theorem registered_symbols_tokenize (st : State) (ops : List Op) (h : SymsOk st) (ks : List String)
+    (hk : ∀ k ∈ ks, ∃ c, (k, c) ∈ (ops.foldl step st).elements) :
+    Cdc.tokenize true (ks.map String.toList).flatten = .ok (ks.map fun k => ({ kind := .ident, text := k, num := .nan } : Cdc.Token)) := by
+  have hv := (symbols_always_valid st ops h).1
+  have hs : ∀ x ∈ ks.map String.toList, Cdc.ValidSym x := by
+    intro x hx
+    obtain ⟨k, hkm, rfl⟩ := List.mem_map.mp hx
+    obtain ⟨c, hc⟩ := hk k hkm
+    exact validSymbol_shape k (hv _ hc)
+  rw [Cdc.tokenize_symbols _ hs]
+  simp [Cdc.identTok, String.ofList_toList]
+
+/-- the statement does not depend on registration at all: any symbols of the valid shape -/
+theorem symbols_tokenize (syms : List (List Char)) (h : ∀ x ∈ syms, Cdc.ValidSym x) :
+    Cdc.tokenize true syms.flatten = .ok (syms.map Cdc.identTok) := Cdc.tokenize_symbols syms h
+
+/-- `L`, `La` and `Ls` stay distinct (an instance; the hypotheses of the theorem are satisfiable) -/
+example : Cdc.tokenize true ['L', 'L', 'a', 'L', 's'] = .ok [Cdc.identTok ['L'], Cdc.identTok ['L', 'a'], Cdc.identTok ['L', 's']] :=
+  Cdc.tokenize_symbols [['L'], ['L', 'a'], ['L', 's']] (by
+    intro x hx
+    simp only [List.mem_cons, List.not_mem_nil, or_false] at hx
+    rcases hx with rfl | rfl | rfl
+    · exact ⟨'L', [], rfl, by decide, by simp⟩
+    · exact ⟨'L', ['a'], rfl, by decide, by intro d hd; simp at hd; subst hd; decide⟩
+    · exact ⟨'L', ['s'], rfl, by decide, by intro d hd; simp at hd; subst hd; decide⟩)
+
 
 /-- a definition whose numeric impedance contradicts its declared equation at the default parameter
 values is refused (when validation is on, as it is after the library has been imported) -/
